@@ -14,7 +14,7 @@ under the explorer's control:
     non-initial states.
 Oracle: per port, the callback log is exactly that port's valid datagrams, each once, in send order,
 with the decoded name/type/id; a sentinel broadcast sent to every port afterwards is delivered
-(nothing stopped listening); exceptions surface only on the loop's exception handler.
+(nothing stopped listening); no exception beyond those of raising callbacks / undecodable datagrams.
 """
 import itertools
 
@@ -160,11 +160,12 @@ def execute(ch, nports, seq, assign, res, case, raise_bound):
                 if src is not None and (dev.device_id != src[18:21].hex() or dev.device_type.hex_rep != src[74:76].hex()):
                     res.violation("delivery-wrong-device", case, f"{dev.name}: delivered id {dev.device_id} type {dev.device_type}, sent id {src[18:21].hex()} code {src[74:76].hex()}")
                     ok = False
-            # exceptions: only callback raises and undecodable datagrams may reach the loop handler
+            # exceptions: at most the raising callbacks and the undecodable datagrams may reach the loop handler
+            # (a library that catches and logs them instead is equally fine: nothing here demands that they surface)
             nbad = sum(1 for k in seq if k == "badname")
             excs = [e for e in bw.loop.exc_log]
-            if len(excs) != len(raised) + nbad:
-                res.violation("exception-accounting", case, f"{len(excs)} loop exception-handler calls, expected {len(raised)} raising callbacks + {nbad} undecodable datagrams: {excs}")
+            if len(excs) > len(raised) + nbad:
+                res.violation("unexpected-exception", case, f"{len(excs)} loop exception-handler calls, at most {len(raised)} raising callbacks + {nbad} undecodable datagrams can explain them: {excs}")
                 ok = False
             return tuple(schedule), multi[0], tuple(raised)
         finally:
@@ -220,6 +221,7 @@ def run_job(job):
         long_lived(res, job)
         return res
     rb = raise_bound(tier)
+    diverged = []
     for nports, seq, assign in combos(tier)[job["i"]::job["n"]]:
         base = {"nports": nports, "seq": seq, "assign": assign}
         scheds = set()
@@ -244,11 +246,16 @@ def run_job(job):
                 if info[2]:
                     res.counters["executions_with_raising_callback"] += 1
 
-        n, capped = X.explore(run, on_exec, bound=rb, cost=cost)
+        n, capped = X.explore(run, on_exec, bound=rb, cost=cost, on_diverge=lambda ch, msg: diverged.append(msg))
         res.counters["sequence_port_assignments"] += 1
         res.outcome(("orders", len(scheds)))
         if len(res.samples) < 1 and len(scheds) >= 3:
             res.sample({"ports": nports, "sequence": seq, "port_of_each": assign, "service_orders_explored": sorted(map(list, scheds))})
+    res.counters["replay_divergences"] += len(diverged)
+    if diverged and not res.violations:
+        from mc.core import HarnessError
+
+        raise HarnessError(f"{len(diverged)} replayed prefixes diverged without any oracle violation: {diverged[0]}")
     return res
 
 
